@@ -122,6 +122,7 @@ class DB:
                     tree = ast.parse(source, filename=path)
                 except SyntaxError as e:
                     raise AnalysisError("cannot parse %s: %s" % (path, e))
+                _drop_noops(tree)
                 m = Module(name, path, "mako/" + rel, source, tree)
                 self.modules[name] = m
                 self._index(m)
@@ -291,3 +292,19 @@ def str_value(node):
                 return None
         return "".join(parts)
     return None
+
+
+def _drop_noops(tree):
+    """statements without effect (docstrings and other constant expression
+    statements) are removed from the analysed tree, so that rules see the same
+    statement lists whether or not such lines are present"""
+    for node in ast.walk(tree):
+        for f in ("body", "orelse", "finalbody"):
+            v = getattr(node, f, None)
+            if isinstance(v, list) and v and isinstance(v[0], ast.stmt):
+                kept = [s for s in v if not (isinstance(s, ast.Expr) and isinstance(s.value, ast.Constant) and s.value.value is not Ellipsis)]
+                if not kept and f == "body":
+                    p = ast.Pass()
+                    ast.copy_location(p, v[0])
+                    kept = [p]
+                setattr(node, f, kept)
